@@ -515,7 +515,7 @@ def run(ctx):
         cs = [(c, cb) for c, cb in P.callers(fn.path) if "::tests::" not in c.path]
         # every dispatch arm (execute or hook) that forwards to this handler is a legitimate call site
         arms = [h2 for h2 in list(handlers.values()) + list(hook_handlers.values()) if h2[3].path == fn.path]
-        bad = [(c, cb) for c, cb in cs if not any(c.path == a[0].path and cb in a[2] for a in arms)]
+        bad = [(c, cb) for c, cb in cs if not any(c.path == (getattr(a[0], "clone_of", None) or a[0].path) and cb in a[2] for a in arms)]
         if bad:
             for c, cb in bad:
                 r12.fail("C14.R12:extra-caller:%s<-%s" % (fn.path, c.path), c.path, common.span_of_block_term(c, cb),
